@@ -67,7 +67,7 @@ theorem tcp_request_end_to_end_buffer {r : Request} {m : Spec.ReqMeaning}
   have he := hb.encodable_iff.mpr hf
   have hl' : r.image.length + 7 ≤ buf.length := by rw [hi]; exact hl
   obtain ⟨out, h1, _, _, h4⟩ := C05.tcp_req_encode_decode tid uid r r' buf he hl' (hb.complete hf hfr) hd
-  have h1' := C05.tcp_req_layout tid uid r buf he hl'
+  have h1' := C05.tcp_req_layout tid uid r buf he (C05.tcp_req_complete_length_field _ (hb.complete hf hfr)).2 hl'
   rw [h1'] at h1
   have ho : out = Spec.tcpFrame tid uid r.image ++ buf.drop (r.image.length + 7) := by
     cases h1; rfl
@@ -188,7 +188,7 @@ theorem tcp_response_end_to_end_buffer_partial {r : Response} {m : Spec.RspMeani
     (hb.complete hf hD12 hfr) (hb.mbap_len hf hml) (hb.not_exception hfr) hd
   have h1' : Tcp.encodeResponse tid uid (.ok r) buf =
       .ok (r.image.length + 7, Spec.tcpFrame tid uid r.image ++ buf.drop (r.image.length + 7)) :=
-    C05.tcp_rsp_layout tid uid (.ok r) buf he hl'
+    C05.tcp_rsp_layout tid uid (.ok r) buf he (hb.mbap_len hf hml) hl'
   rw [h1'] at h1
   have ho : out = Spec.tcpFrame tid uid r.image ++ buf.drop (r.image.length + 7) := by
     cases h1; rfl
